@@ -439,12 +439,13 @@ def run(ctx):
         g = re.search(r'"leg":"(\w)"', l)
         a = re.search(r'"a":"(\w+)"', l)
         ctx.distinct.add((a.group(1) if a else "", g.group(1) if g else "F", m.group(0) if m else "", int(fl.group(1)) & 0x7F9 if fl else 0))
+    all_x86 = {json.loads(l)["name"] for l in open(forms)}
     ctx.evaluations = len(lines) + ncalls
     unj_by = collections.Counter(why for _, why in unj)
     ctx.extra.update({
         "observations": dict(legs), "x86_forms_judged": len(xf), "x86_mnemonics_judged": len(xn), "a64_mnemonics_judged": len(an),
         "format_flag_combinations_judged": len(flagsets), "logger_transcripts": len(progs), "logger_transcript_calls": ncalls,
-        "unjudged": dict(unj_by), "rejection_classes": {k: len(v) for k, v in groups.items()},
+        "x86_instructions_without_a_judged_observation": sorted(all_x86 - xn), "unjudged": dict(unj_by), "rejection_classes": {k: len(v) for k, v in groups.items()},
         "not_covered": ["text of the kExplainImms explanation (skipped, the immediate itself is judged)", "FormatFlags::kPositions (only printed by Formatter::format_node for Compiler nodes)",
                         "Builder/Compiler node formatting (format_node: function/invoke/sentinel/const-pool nodes)", "AArch32 (no sweep exists)", "x86 APX registers r16..r31 (not swept by C01)",
                         "a64 rows without a C02 generator (PC-literal loads are covered by hand-made label cases only), SVE/SME", "the {1toN} decoration in format_operand (it is printed by format_instruction only)",
